@@ -50,6 +50,9 @@ class Reporter:
     def check(self, cond, rule, key, where="", detail="", bad_detail=None, nontrivial=True):
         if cond:
             self.ok(rule, key, where, detail, nontrivial)
+        elif rule.endswith(".inventory"):
+            # fewer instances than confirmed by hand: the analysis lost sight of the code, not a property violation
+            self.undecided(rule, key, where, bad_detail or detail)
         else:
             self.bad(rule, key, where, bad_detail or detail, nontrivial)
         return cond
@@ -121,8 +124,18 @@ def verdict(prop, rep, floors=None, known=None):
     }
 
 
-def write_evidence(prop, tier, seed, rep, ver, wall, meta, extra=None):
-    os.makedirs(os.path.join(VERIF, "evidence"), exist_ok=True)
+def out_dir(root="/repo"):
+    """Evidence of the tree under verification lives in /verif/evidence; runs against any other root
+    (scratch copies used by the self-test and the tools) must never overwrite it."""
+    if os.path.realpath(root) == os.path.realpath(os.environ.get("VERIF_DEFAULT_ROOT", "/repo")):
+        return os.path.join(VERIF, "evidence")
+    import tempfile
+
+    return os.environ.get("VERIF_SCRATCH_OUT") or os.path.join(tempfile.gettempdir(), "verif-scratch-evidence")
+
+
+def write_evidence(prop, tier, seed, rep, ver, wall, meta, extra=None, root="/repo"):
+    os.makedirs(out_dir(root), exist_ok=True)
     obs = rep.obs
     discharged = sum(1 for o in obs if o.status == "ok")
     distinct = len({o.ident() for o in obs if o.nontrivial})
@@ -176,14 +189,14 @@ def write_evidence(prop, tier, seed, rep, ver, wall, meta, extra=None):
         "wall_s": round(wall, 3),
         "violations": len(ver["violations"]),
     }
-    path = os.path.join(VERIF, "evidence", "%s.json" % prop)
+    path = os.path.join(out_dir(root), "%s.json" % prop)
     with open(path, "w") as fh:
         json.dump(ev, fh, indent=1, default=str)
     return path
 
 
 def write_replay(prop, idx, ob, root):
-    d = os.path.join(VERIF, "evidence", "replay")
+    d = os.path.join(out_dir(root), "replay")
     os.makedirs(d, exist_ok=True)
     path = os.path.join(d, "%s-%d.json" % (prop, idx))
     with open(path, "w") as fh:
